@@ -9,7 +9,7 @@
 From Coq Require Import List NArith ZArith Bool Sorted Permutation.
 Import ListNotations.
 From SV Require Fmt.CmdSeq Fmt.CmdSeqProofs Fmt.ScenesImage Fmt.ScenesImageProofs Fmt.ScenesImageCfg Fmt.ScenesImageCfgProofs
-  Fmt.SmdTpl Fmt.SmdTplProofs Fmt.SmdWords Fmt.TextFields Fmt.TextFieldsProofs Fmt.ChoreoBin Fmt.ChoreoBinProofs Fmt.SceneSummary KV.KvBase KV.KvLex KV.KvSym KV.KvLexProofs.
+  Fmt.SmdTpl Fmt.SmdTplProofs Fmt.SmdWords Fmt.TextFields Fmt.TextFieldsProofs Fmt.SndStacks Fmt.SndStacksProofs Fmt.ChoreoBin Fmt.ChoreoBinProofs Fmt.SceneSummary KV.KvBase KV.KvLex KV.KvSym KV.KvLexProofs.
 
 (** * Command sequences *)
 Module CS := Fmt.CmdSeq.
@@ -231,6 +231,61 @@ Theorem c20_sndscript_stacks_crossed_refuted :
   TF.stacks_paired [([1], [10], [10]); ([2], [11], [11]); ([3], [11], [11])]%N [([1], [10]); ([2], [11]); ([3], [12])]%N = false
   /\ TF.stacks_paired [([1], [10], [10]); ([2], [11], [11]); ([3], [12], [12])]%N [([1], [10]); ([2], [11]); ([3], [12])]%N = true.
 Proof. exact TFP.stacks_crossed_refuted. Qed.
+
+(** * Soundscript operator stacks (SK := Fmt.SndStacks): Sound keeps three optional blocks behind lazy properties (reading
+    `snd.stack_start` stores an empty block when there was none).  Over the census regenerated from sndscript.py -- the
+    terms of the test that switches the version-2 keys on, and per stack block its guard and source -- for every census
+    passing [guard_okb] / [blocks_okb] (the check discharges both for today's source), every sound, any child type: *)
+Module SK := Fmt.SndStacks.
+Module SKP := Fmt.SndStacksProofs.
+
+(** what is written depends on the value only: reading the lazy properties first, in any order, changes nothing *)
+Theorem c20_sndscript_export_observer_independent : forall A g ws ts (x : SK.sound A),
+  SK.guard_okb g = true -> SK.blocks_okb ws = true ->
+  fst (SK.export g ws (SK.touches ts x)) = fst (SK.export g ws x).
+Proof. exact SKP.export_observer_independent. Qed.
+
+(** exporting the same object twice (export itself reads the lazy properties) writes the same *)
+Theorem c20_sndscript_export_again_identical : forall A g ws (x : SK.sound A),
+  SK.guard_okb g = true -> SK.blocks_okb ws = true ->
+  fst (SK.export g ws (snd (SK.export g ws x))) = fst (SK.export g ws x).
+Proof. exact SKP.export_again_identical. Qed.
+
+(** two sounds of the same value (same version-2-ness, same children; a missing stack = an empty one) are written identically *)
+Theorem c20_sndscript_export_same_value : forall A g ws (x y : SK.sound A),
+  SK.guard_okb g = true -> SK.blocks_okb ws = true -> SK.same_value x y ->
+  fst (SK.export g ws x) = fst (SK.export g ws y).
+Proof. exact SKP.export_same_value. Qed.
+
+(** the reader gives the value back, and the second generation is identical *)
+Theorem c20_sndscript_stacks_roundtrip : forall A g ws (x : SK.sound A),
+  SK.guard_okb g = true -> SK.blocks_okb ws = true ->
+  SK.same_value (SK.parse (fst (SK.export g ws x))) x.
+Proof. exact SKP.parse_export_same_value. Qed.
+Theorem c20_sndscript_stacks_second_generation : forall A g ws (x : SK.sound A),
+  SK.guard_okb g = true -> SK.blocks_okb ws = true ->
+  fst (SK.export g ws (SK.parse (fst (SK.export g ws x)))) = fst (SK.export g ws x).
+Proof. exact SKP.second_generation_identical. Qed.
+
+(** refuted: `self._stack_x is not None` in the version-2 test (a version-1 sound whose start stack was merely looked
+    at is written as version 2 and read back as another value); a test that forgets the stop stack; a block guarded by a
+    presence test *)
+Theorem c20_sndscript_presence_test_refuted :
+  SK.guard_okb SKP.presence_guard = false
+  /\ let x := SK.mkSnd (A := nat) false None None None in
+     fst (SK.export SKP.presence_guard SKP.ref_blocks (SK.touch SK.SStart x)) <> fst (SK.export SKP.presence_guard SKP.ref_blocks x)
+     /\ SK.is_v2 (SK.parse (fst (SK.export SKP.presence_guard SKP.ref_blocks (SK.touch SK.SStart x)))) <> SK.is_v2 (SK.touch SK.SStart x).
+Proof. exact SKP.presence_guard_refuted. Qed.
+Theorem c20_sndscript_forgetful_test_refuted :
+  SK.guard_okb SKP.forgetful_guard = false
+  /\ let x := SK.mkSnd false None None (Some [5]) in
+     SK.content (SK.parse (fst (SK.export SKP.forgetful_guard SKP.ref_blocks x))) SK.SStop <> SK.content x SK.SStop.
+Proof. exact SKP.forgetful_guard_refuted. Qed.
+Theorem c20_sndscript_presence_block_refuted :
+  SK.blocks_okb SKP.presence_blocks = false
+  /\ let x := SK.mkSnd (A := nat) true None None None in
+     fst (SK.export SKP.ref_guard SKP.presence_blocks (SK.touch SK.SStart x)) <> fst (SK.export SKP.ref_guard SKP.presence_blocks x).
+Proof. exact SKP.presence_block_refuted. Qed.
 
 (** * Binary choreo scenes (BVCD), at the level of raw field values (float32 as bit pattern, quantised values as the
     byte written, strings as pool indexes).  Fmt/ChoreoBin.v describes each class by a layout; the check discharges,
